@@ -61,10 +61,11 @@ VAL_RTOL = 1e-12
 def bounds(tier):
     return {
         "quick": {"calculator": {"configs": len(calc_configs("quick")), "lattice_points_per_parameter": "3 (2 when 4 free)", "depth": "closure (cap 6000 states)"},
-                  "controller": {"depth": 2, "operations": "see rule"},
+                  "controller": {"depth": 2, "operations": len(lf_ops())},
                   "fresh_history_selfcheck_depth": 2},
         "thorough": {"calculator": {"configs": len(calc_configs("thorough")), "lattice_points_per_parameter": 3, "depth": "closure (cap 40000 states)"},
-                     "controller": {"depth": 3},
+                     "controller": {"depth": 2, "operations": len(lf_ops()), "depth_reduced_alphabet": 3,
+                                    "operations_reduced_alphabet": len(lf_ops(reduced=True))},
                      "fresh_history_selfcheck_depth": 3},
     }[tier]
 
@@ -478,6 +479,10 @@ class CalcSystem:
             ops.append(["change", ch, None])
         for x in itertools.product(*[range(len(row)) for row in self.lattice]):
             ops.append(["call", list(x), None])
+        if not self.with_undo:
+            # without the second buffer an interrupted calculation cannot be rolled back (by construction):
+            # interruptions are only injected into calculators with undo
+            return ops
         for i, row in enumerate(self.lattice):
             for v in range(len(row)):
                 for fr in range(len(self.fault_ranks)):
@@ -584,19 +589,15 @@ class CalcSystem:
         )
 
     def _cls(self, info, op, obs):
-        """structural class of a transition for signatures"""
+        """structural class of a transition for signatures (kept coarse: one defect, few signatures)"""
         kind, arg, fr = op
-        changed = [i for i, v in arg if info[i] != v] if kind == "change" else [i for i, v in enumerate(arg) if info[i] != v]
-        same = [i for i, v in arg if info[i] == v] if kind == "change" else []
-        parts = [kind, f"{min(len(changed), 2)}{'+' if len(changed) > 2 else ''} changed"]
-        if same:
-            parts.append("with no-change entries")
-        if fr is not None:
-            parts.append("interruption at " + ["first dependent cell", "recycled cell", "last cell"][min(fr, 2)] if len(self.fault_ranks) == 3
-                         else "interruption injected")
+        parts = ["interrupted step" if fr is not None else "completed step"]
         if not self.with_undo:
             parts.append("with_undo=False")
         return ", ".join(parts)
+
+    def _opname(self, op):
+        return "Calculator.change" if op[0] == "change" else "Calculator.__call__"
 
     def check_transition(self, calc, info, op, obs, info2, hist_fn, acc):
         cfg = self.config
@@ -606,7 +607,8 @@ class CalcSystem:
             nonlocal case
             if case is None:
                 case = {"kind": "calc", "config": cfg, "hist": hist_fn(), "op": op}
-            acc.fail(f"Calculator {what} [{self._cls(info, op, obs)}]", case, {"got": got, "want": want, "x_before": list(info), "x_after": list(info2)})
+            acc.fail(f"{self._opname(op)}: {what} [{self._cls(info, op, obs)}]", case,
+                     {"got": got, "want": want, "x_before": list(info), "x_after": list(info2)})
 
         fired = obs[-1]
         want = self.want(info2)
@@ -683,15 +685,24 @@ MPROBS = [{"T": 0.1, "C": 0.2, "A": 0.3, "G": 0.4}, {"T": 0.4, "C": 0.3, "A": 0.
 KINDS = ("const_v0", "const_v1", "const_cur", "init_v0", "init_v1", "indep", "shared", "init_big")
 
 
-def lf_ops():
+REDUCED_SCOPES = ("all", "edge:a", "edges:a,b")
+REDUCED_KINDS = ("const_v0", "const_cur", "init_v1", "indep", "shared", "init_big")
+
+
+def lf_ops(reduced=False):
+    """the operation alphabet of the controller layer; `reduced` = the smaller alphabet used for the deeper search"""
     ops = []
     for par in ("kappa", "length"):
-        for scope in SCOPES:
-            for kind in KINDS:
+        for scope in (REDUCED_SCOPES if reduced else SCOPES):
+            for kind in (REDUCED_KINDS if reduced else KINDS):
                 ops.append(["rule", par, scope, kind])
-    ops += [["mprobs", 0], ["mprobs", 1], ["aln", 0], ["aln", 1], ["optimise"]]
-    menu = [["rule", "kappa", "all", "init_v1"], ["rule", "length", "edge:a", "const_v0"], ["rule", "length", "edges:a,b", "shared"],
-            ["rule", "kappa", "edge:a", "init_v0"], ["mprobs", 1], ["aln", 1]]
+    if reduced:
+        ops += [["mprobs", 1], ["aln", 1], ["optimise"]]
+        menu = [["rule", "kappa", "all", "init_v1"], ["rule", "length", "edges:a,b", "shared"]]
+    else:
+        ops += [["mprobs", 0], ["mprobs", 1], ["aln", 0], ["aln", 1], ["optimise"]]
+        menu = [["rule", "kappa", "all", "init_v1"], ["rule", "length", "edge:a", "const_v0"], ["rule", "length", "edges:a,b", "shared"],
+                ["rule", "kappa", "edge:a", "init_v0"], ["mprobs", 1], ["aln", 1]]
     for a in menu:
         for b in menu:
             ops.append(["postponed", a, b])
@@ -709,7 +720,7 @@ class LfSystem:
 
     def __init__(self, cfg=None):
         self.config = cfg or {}
-        self._ops = lf_ops()
+        self._ops = lf_ops(reduced=bool(self.config.get("reduced")))
         self._alns = None
 
     def _parts(self):
@@ -937,13 +948,11 @@ class LfSystem:
         return n
 
     def _cls(self, op):
+        """coarse class of the last operation of a history (one defect, few signatures)"""
         if op is None:
             return "initial state"
-        if op[0] == "postponed":
-            return "updates_postponed(" + self._cls(op[1]) + "; " + self._cls(op[2]) + ")"
-        if op[0] == "rule":
-            return f"set_param_rule {op[1]} {'global' if op[2] == 'all' else ('one edge' if op[2].startswith('edge:') else 'edge list')} {op[3].rstrip('01')}"
-        return {"mprobs": "set_motif_probs", "aln": "set_alignment", "optimise": "optimise"}[op[0]]
+        return {"rule": "set_param_rule", "mprobs": "set_motif_probs", "aln": "set_alignment", "optimise": "optimise",
+                "postponed": "updates_postponed block"}[op[0]]
 
     def check_transition(self, lf, info, op, obs, info2, hist_fn, acc):
         if obs[0] != "ok":
@@ -1042,10 +1051,15 @@ def shards(tier, seed):
     small = calc_configs("quick")[0]
     for c in range(of):
         out.append({"part": "fresh", "config": small, "depth": depth, "chunk": c, "of": of})
-    nops = len(lf_ops())
-    k = 48 if tier == "quick" else nops
+    # controller layer: every history of depth 2 over the full alphabet; thorough adds depth 3 over the reduced alphabet.
+    # A shard = the histories starting with a subset of the first operations.
+    k = 48
     for c in range(k):
-        out.append({"part": "lf", "depth": 2 if tier == "quick" else 3, "chunk": c, "of": k})
+        out.append({"part": "lf", "depth": 2, "chunk": c, "of": k, "reduced": False})
+    if tier == "thorough":
+        k = len(lf_ops(reduced=True))
+        for c in range(k):
+            out.append({"part": "lf", "depth": 3, "chunk": c, "of": k, "reduced": True})
     return out
 
 
@@ -1059,7 +1073,7 @@ def run_shard(spec, acc):
     elif spec["part"] == "fresh":
         fresh_histories(spec["config"], spec["depth"], acc, spec["chunk"], spec["of"])
     else:
-        s = LfSystem({})
+        s = LfSystem({"reduced": bool(spec.get("reduced"))})
         first = {i for i in range(len(s._ops)) if i % spec["of"] == spec["chunk"]}
         w = Walker(s, depth=spec["depth"], acc=acc, first_ops=first, max_states=20000)
         w.run()
